@@ -185,6 +185,11 @@ def check_rows(rep: Report, rule: str, rows: List[Row], parts: Optional[List[str
         if exp == "skip":
             continue
         case = row_case(r)
+        if r.crash:
+            n += 1
+            rep.bad(rule, WHERE, case, f"{r.event} {r.kind} crashes: {'; '.join(r.crash)}", witness=f"{r.kind}(a b)",
+                    key=f"{rule}|crash|{r.event} {r.kind}")
+            continue
         if r.error:
             # explicit error paths: exempt, but they must leave the entry list and the stacks alone
             if "loopexit" in r.val or "exc" in r.val:
